@@ -68,6 +68,44 @@ func c17(w *core.World, r *core.Report) {
 	r.Rule("R17.4", "mode migration: seed (checkpoint ≺ mode-specific state ≺ mode marker) ≺ repoint index ≺ retire old index entry / old namespace", 2)
 	ruleMigrationOrder(w, r)
 
+	r.Rule("R17.6", "an index entry is deleted only under a test that it is not the entry just written (old id != new id)", 2)
+	for _, name := range []string{"pkg/redis/checkpoint.UpdateCheckpoint", "(*syncer.syncer).resolveBisyncCheckpointNameWithClient"} {
+		f := fn(w, r, name)
+		if f == nil {
+			continue
+		}
+		var written []ssa.Value
+		for _, s := range core.SitesNamed(f, false, "pkg/redis/checkpoint.SetCheckpointHash") {
+			if a := s.Args(); len(a) == 3 {
+				written = append(written, a[1])
+			}
+		}
+		n := 0
+		for _, d := range core.SitesNamed(f, false, "pkg/redis/checkpoint.DelCheckpointHash") {
+			a := d.Args()
+			if len(a) != 2 {
+				continue
+			}
+			n++
+			guarded := false
+			for _, fct := range core.FactsAt(d.Instr.Block()) {
+				c, ok := core.AsCmp(fct.Cond, fct.Val)
+				if !ok || c.Op != token.NEQ {
+					continue
+				}
+				for _, wv := range written {
+					if (sameValue(c.X, a[1]) && sameValue(c.Y, wv)) || (sameValue(c.Y, a[1]) && sameValue(c.X, wv)) {
+						guarded = true
+					}
+				}
+			}
+			r.Check(guarded, shortName(name)+"/DelCheckpointHash-not-new", d.Pos(), "the index entry of an id is deleted without testing that it differs from the id the index was just repointed under: when the id did not change this removes the live entry and the next start finds no resume position")
+		}
+		if n == 0 {
+			r.Fail(shortName(name)+"/DelCheckpointHash-not-new", f.Pos(), "old index entry is never retired")
+		}
+	}
+
 	r.Rule("R17.5", "re-keying after a source id change passes [new id, previous id]", 1)
 	if f := fn(w, r, "(*syncer.RedisOutput).SetRunId"); f != nil {
 		n := 0
@@ -456,4 +494,37 @@ func ruleUpdateCheckpoint(w *core.World, r *core.Report, idOrder, idDb string) {
 		}
 	}
 
+}
+
+func shortName(n string) string {
+	if i := strings.LastIndex(n, "."); i >= 0 {
+		return n[i+1:]
+	}
+	return n
+}
+
+// sameValue: structural equality of two pure expressions (same SSA value, or
+// loads of the same element/field of the same base).
+func sameValue(a, b ssa.Value) bool {
+	a, b = core.Unwrap(a), core.Unwrap(b)
+	if a == b {
+		return true
+	}
+	ua, ok1 := a.(*ssa.UnOp)
+	ub, ok2 := b.(*ssa.UnOp)
+	if ok1 && ok2 && ua.Op == token.MUL && ub.Op == token.MUL {
+		ia, ok1 := ua.X.(*ssa.IndexAddr)
+		ib, ok2 := ub.X.(*ssa.IndexAddr)
+		if ok1 && ok2 {
+			ka, okA := core.ConstInt(ia.Index)
+			kb, okB := core.ConstInt(ib.Index)
+			return okA && okB && ka == kb && sameValue(ia.X, ib.X)
+		}
+		fa, ok1 := ua.X.(*ssa.FieldAddr)
+		fb, ok2 := ub.X.(*ssa.FieldAddr)
+		if ok1 && ok2 {
+			return fa.Field == fb.Field && sameValue(fa.X, fb.X)
+		}
+	}
+	return false
 }
